@@ -59,6 +59,8 @@ def register(op):
     def _(a):
         form, c, u = a
         r, rs, p = reaction(1)
+        # the reaction carried another constant with other units before: what is returned is what was set LAST
+        r.rate_constant = (3, "/nM/h")
         if form == 0:
             r.rate_constant = c
         elif form == 1:
